@@ -124,12 +124,21 @@ class C02(Property):
                     d["source"] = rng.choice(["file", "pil-file"])
                     d["animated"] = rng.choice([2, 3])
                     d["frame_no"] = rng.randrange(d["animated"])
+                if not d.get("source") and shape == "free" and rng.random() < 0.5:
+                    # a lazily-opened JPEG much larger than the render size: the decoder may not be asked for a
+                    # reduced (DCT-scaled) decode - the pixels shown are the BOX reduction of the full image
+                    d["source"] = rng.choice(["file", "pil-file"])
+                    d["jpeg"] = True
+                    d["mode"] = rng.choice(["RGB", "RGB", "L"])
+                    d["pattern"] = rng.choice(["random", "runs", "two-tone", "half-noise"])
+                    d["w"] = d["cols"] * rng.choice([2, 3, 4, 8])
+                    d["h"] = 2 * d["lines"] * rng.choice([2, 3, 4, 8])
                 d["entry"] = rng.choice(["str", "format", "format", None] + (["iter", "iter"] if d.get("animated") else []))
                 if d["entry"]:
                     d["split"] = False
                     d["prerender"] = False
             yield Case(op, d, f"{op}-{shape}-{'a' if isinstance(d['alpha'], float) else 's' if d['alpha'] else 'n'}"
-                       + ("-" + d["source"] if d.get("source") else "") + ("-frame" if d.get("animated") else "")
+                       + ("-" + d["source"] if d.get("source") else "") + ("-jpeg" if d.get("jpeg") else "") + ("-frame" if d.get("animated") else "")
                        + ("-" + d["entry"] if d.get("entry") else ""), True)
 
     def _source(self, d):
@@ -143,8 +152,12 @@ class C02(Property):
             ref.seek(k)
             src = ref.copy()
         elif d.get("source"):
-            path = os.path.join(TMP, f"still-{d['iseed']}.png")
-            imgkit.make_image(d).save(path)
+            if d.get("jpeg"):
+                path = os.path.join(TMP, f"still-{d['iseed']}.jpg")
+                imgkit.make_image(d).save(path, quality=92)
+            else:
+                path = os.path.join(TMP, f"still-{d['iseed']}.png")
+                imgkit.make_image(d).save(path)
             src = Image.open(path)
             src.load()
             k = 0
